@@ -3,7 +3,7 @@
 # imports come from shuttle.  Every rewrite must hit exactly once, otherwise: harness error (exit 2).
 set -eu
 LOCK=${1:-/repo/Cargo.lock}
-DEST=/verif/build/simplicity-lang-shuttle
+DEST="$(cd "$(dirname "$0")/.." && pwd)/build/simplicity-lang-shuttle"
 VER=$(awk '/^name = "simplicity-lang"$/ {getline; gsub(/version = |"/, ""); print; exit}' "$LOCK")
 [ -n "$VER" ] || { echo "make-shuttle-dep: simplicity-lang not found in $LOCK" >&2; exit 2; }
 SRC=$(ls -d "$HOME"/.cargo/registry/src/*/simplicity-lang-"$VER" 2>/dev/null | head -1)
